@@ -6,7 +6,10 @@ if [ -n "$(git status --porcelain)" ]; then echo "/repo is dirty, refusing"; exi
 if git apply --check "$P" 2>/dev/null; then git apply "$P"
 elif git apply --3way --check "$P" 2>/dev/null; then git apply --3way "$P" >/dev/null 2>&1
 else echo "PATCH DOES NOT APPLY: $P"; exit 2; fi
+# evidence files describe the UNCHANGED tree: keep them out of reach of runs on a patched tree
+EV=$(mktemp -d); cp -a /verif/evidence/. "$EV"/
 for id in "$@"; do
   (cd /verif && ./check "$id" 2>&1 | grep -v "^WARNING" | tail -${TAIL:-6}; )
 done
 git -C /repo reset -q --hard HEAD
+cp -a "$EV"/. /verif/evidence/; rm -rf "$EV"
